@@ -397,6 +397,17 @@ def run_check(prop: Property, tier: str, seed: int, replay: Optional[str] = None
         else:
             cov["discharged"] = 0
         driver_ok = bool(prop.driver) and driver_path(prop.driver).exists() and (ok or lake_build([prop.driver])[0])
+        if ok and tier == "thorough" and not replay:
+            # independent re-check of the compiled theorem modules (and everything they import)
+            try:
+                lc = subprocess.run(["lake", "env", "leanchecker", *prop.lean_props], cwd=LEAN_DIR,
+                                    capture_output=True, text=True, timeout=1800)
+                cov["leanchecker"] = {"modules": list(prop.lean_props), "exit": lc.returncode,
+                                      "output_tail": (lc.stdout + lc.stderr)[-400:]}
+                if lc.returncode != 0:
+                    infra.append("leanchecker rejected the compiled modules: " + (lc.stdout + lc.stderr)[-800:])
+            except subprocess.TimeoutExpired:
+                infra.append("leanchecker timed out")
     finally:
         lock.close()
     cov["trusted_base"] = TRUSTED_BASE + ([f"not carried by the theorems: {prop.partial}"] if prop.partial else [])
@@ -546,6 +557,18 @@ def run_check(prop: Property, tier: str, seed: int, replay: Optional[str] = None
     return rc
 
 
+def _crash_evidence(pid: str, tier: str, seed: int, why: str) -> None:
+    """the run did not get as far as writing its evidence: leave a valid file saying so"""
+    try:
+        EVIDENCE_DIR.mkdir(exist_ok=True)
+        (EVIDENCE_DIR / f"{pid}.json").write_text(json.dumps({
+            "property_id": pid, "tier": tier, "seed": seed, "level": "other",
+            "coverage": {"explanation": "infrastructure failure before the check completed (exit 2): " + why},
+            "wall_s": 0.0, "violations": 0}, indent=1))
+    except Exception:
+        pass
+
+
 def main(prop_cls) -> None:
     ap = argparse.ArgumentParser()
     ap.add_argument("--tier", default=os.environ.get("VERIF_TIER", "quick"), choices=["quick", "thorough"])
@@ -557,8 +580,10 @@ def main(prop_cls) -> None:
     except subprocess.TimeoutExpired as e:
         print(f"INFRA property={prop_cls.id} timeout: {e}")
         rc = 2
+        _crash_evidence(prop_cls.id, a.tier, a.seed, f"timeout: {e}")
     except Exception:
         print(f"INFRA property={prop_cls.id} crashed: {traceback.format_exc()[-3000:]}")
         rc = 2
+        _crash_evidence(prop_cls.id, a.tier, a.seed, traceback.format_exc()[-1500:])
     sys.stdout.flush()
     os._exit(rc)
